@@ -76,7 +76,6 @@ Inductive cmd :=
 Definition at_gate (ar : gk -> bool) (s : st) (t : tid) : bool :=
   match thr s t with Some th => parks ar th | None => false end.
 
-Definition u_chan (u : urec) : ch := u_ch u.
 Definition thread_ch (th : thread) : ch :=
   match th with
   | TAtt a => a_ch a
@@ -98,16 +97,36 @@ Definition parked_at (ar : gk -> bool) (s : st) (g : gk) (c : ch) (t : tid) : bo
                end
   | None => false
   end.
-Definition find_parked (ar : gk -> bool) (s : st) (k : N) (g : gk) (c : ch) : option tid :=
-  if parked_at ar s g c (2 * k) then Some (2 * k)
-  else find (parked_at ar s g c) (ext_tids s).
+(* The presence tick walks a snapshot taken from a Go map, i.e. in an order chosen by the
+   runtime.  When the implementation's tick is parked at AddPresence for channel [c] while the
+   model's tick (which walks in list order) is parked for another snapshot item, the model's
+   remaining items are rotated so that [c] comes first: this is the schedule in which the
+   snapshot order started with [c] (the membership check of the skipped head has no effect
+   and is redone when its turn comes). *)
+Definition bring_front (c : ch) (l : list ch) : list ch :=
+  if existsb (N.eqb c) l then c :: remove1 c l else l.
+Definition retarget_tick (s : st) (t : tid) (c : ch) : st :=
+  match thr s t with
+  | Some (TTck k) =>
+      match t_pc k with
+      | TAdd => thr_set t (TTck (mkT TAdd (bring_front c (t_todo k)) (t_added k) (t_rem k))) s
+      | TCompRem => thr_set t (TTck (mkT TCompRem (t_todo k) (t_added k) (bring_front c (t_rem k)))) s
+      | _ => s
+      end
+  | _ => s
+  end.
+Definition find_parked (ar : gk -> bool) (s : st) (k : N) (g : gk) (c : ch) : option (st * tid) :=
+  let s1 := retarget_tick s (2 * k) c in
+  if parked_at ar s1 g c (2 * k) then Some (s1, 2 * k)
+  else if at_gate ar s (2 * k) then None
+  else match find (parked_at ar s g c) (ext_tids s) with Some t => Some (s, t) | None => None end.
 
 Definition do_cmd (ar : gk -> bool) (s : st) (c : cmd) : option st :=
   let fin o := match o with Some s' => Some (settle rounds ar s') | None => None end in
   match c with
   | CSpawn o => fin (spawn s o)
   | CRelease k g c b =>
-      match find_parked ar s k g c with Some t => fin (step_thread s t b) | None => None end
+      match find_parked ar s k g c with Some (s1, t) => fin (step_thread s1 t b) | None => None end
   | CReleaseClose b =>
       match find_close s with
       | Some t => if at_gate ar s t then fin (step_thread s t b) else None
